@@ -320,6 +320,63 @@ def history_cases(chk, rng):
         if got != want:
             return chk.fail('processor-nesting', f"a {kind}-processor that is an ordinary unit whose class has a pre- and a post-processor of its own (marks 400, 500): processors run "
                             f"{got[0]}, outer in profile carries {got[1]}, returned profile {got[2]}; expected {want}", {'kind': kind})
+    # (b3) a factory whose product belongs to the class it is registered on: the product is a unit like any other, the factory is asked for it as well
+    for kind in ('pre', 'post'):
+        Stage = type("Stage", (Transport,), {})
+        asked = []
+
+        def deeper(unit, asked=asked, Stage=Stage):
+            asked.append(unit.label)
+            d = int(unit.label[1:])
+            return Stage(label=f"d{d + 1}", duration=0) if d < 2 else None
+        (Stage.pre_processors if kind == 'pre' else Stage.post_processors).append(deeper)
+        (Stage.pre_processors if kind == 'pre' else Stage.post_processors).append(lambda unit: Proc(600 + int(unit.label[1:])))
+        calls.clear()
+        Stage(label="d0", duration=1).solve(ip())
+        chk.cov['evaluations'] += 1
+        if asked != ['d0', 'd1', 'd2'] or list(calls) != [602, 601, 600]:
+            return chk.fail('processor-nesting', f"a {kind}-processor factory registered on the class its own product belongs to (it answers for d0 and d1 with a unit one level deeper, "
+                            f"d2 gets none), followed by a second factory on the same class: the first was asked for {asked} (expected d0, d1, d2), the second's processors ran "
+                            f"{list(calls)} (expected 602, 601, 600)", {'kind': kind, 'case': 'own-class product'})
+    # (b4) the package's own registrations are registrations like any other: a factory the user adds to BaseRollPass comes after what the package put there at import
+    #      time, so it receives the output of the pass's entry rotation, and the pass's in profile is what it returned
+    from pyroll.core import BaseRollPass, RollPass, Roll, CircularOvalGroove, RoundGroove, ThreeRollPass
+    seen = {}
+
+    class Recorder(Unit):
+        def __init__(self, host):
+            super().__init__(label="recorder")
+            self.host = host
+
+        def solve(self, in_profile):
+            seen[self.host.label] = in_profile.cross_section.wkt
+            return in_profile
+
+    def recorder(unit):
+        return Recorder(unit)
+    hf = BaseRollPass.Profile.flow_stress(lambda self: 50e6)
+    BaseRollPass.pre_processors.append(recorder)
+    try:
+        for cls, g2 in ((RollPass, RoundGroove(r1=1e-3, r2=12.5e-3, depth=11.5e-3)), (ThreeRollPass, RoundGroove(r1=3e-3, r2=25e-3, depth=11e-3, pad_angle=30))):
+            seen.clear()
+            first = cls(label="first", roll=Roll(groove=CircularOvalGroove(depth=8e-3, r1=6e-3, r2=40e-3, **({'pad_angle': 30} if cls is ThreeRollPass else {})),
+                                                 nominal_radius=160e-3, rotational_frequency=1), gap=2e-3)
+            second = cls(label="second", roll=Roll(groove=g2, nominal_radius=160e-3, rotational_frequency=1), gap=2e-3)
+            line = PassSequence([first, Transport(label="t", duration=1), second])
+            try:
+                line.solve(Profile.round(diameter=30e-3 if cls is RollPass else 55e-3, temperature=1473.15, strain=0, material="steel", length=1, t=0))
+            except Exception as e:      # noqa
+                chk.notes.append(f"b4 {cls.__name__}: {type(e).__name__}") if hasattr(chk, 'notes') else None
+                continue
+            chk.cov['evaluations'] += 1
+            for u in (first, second):
+                if seen.get(u.label) != u.in_profile.cross_section.wkt:
+                    return chk.fail('processor-order', f"a pre-processor added to BaseRollPass after import (it hands the profile on unchanged) and a {cls.__name__} {u.label!r} with entry "
+                                    f"rotation {u.rotation!r}: the pass's in profile is not the profile this last pre-processor returned (the entry rotation ran after it)",
+                                    {'case': 'package registrations first', 'class': cls.__name__, 'unit': u.label})
+    finally:
+        BaseRollPass.pre_processors.remove(recorder)
+        hf.hook.remove_function(hf)
     # (c) real Rotator units as processors, fed with a profile that has been turned before: the processor's result must not reach back into
     #     the unit's own outgoing state, nor into the out profile of the unit in front
     from pyroll.core import Rotator
